@@ -182,12 +182,18 @@ ECanon(s, n) ==
                    d \in {s.instRef[i] : i \in SeqSet(s.defKids[top])} \ {None}}]
 (* undeclared primitives come back with undefined directions: compare without the directions then *)
 ECanonNoDirs(ec) == [ec EXCEPT !.prims = {[p EXCEPT !.ports = {}] : p \in @}]   \* undeclared models: ports are only inferred from use
+(* ... but when every formal is written (unconnected ones as formal=unconn) the inferred model has exactly the design's *)
+(* port names, and every inferred port has at least one pin                                                             *)
+EPortNames(ec) == {<<p.name, q.name>> : <<p, q>> \in UNION {{<<pp, qq>> : qq \in pp.ports} : pp \in ec.prims}}
 EblifReadClauses(pre, c, out, post, ret) ==
     IF c.op = "eblif_read" THEN
       << <<"C18_Accepted", out = "ok">>,
          <<"C18_Exact", (out = "ok" /\ Len(ret) = 1) =>
                IF c.opts.declare = "all" THEN ECanon(post, ret[1]) = ECanon(pre, c.n)
-               ELSE ECanonNoDirs(ECanon(post, ret[1])) = ECanonNoDirs(ECanon(pre, c.n))>>,
+               ELSE /\ ECanonNoDirs(ECanon(post, ret[1])) = ECanonNoDirs(ECanon(pre, c.n))
+                    /\ (c.opts.unconn = "unconn" =>
+                           /\ EPortNames(ECanon(post, ret[1])) = EPortNames(ECanon(pre, c.n))
+                           /\ \A p \in ECanon(post, ret[1]).prims : \A q \in p.ports : q.width >= 1)>>,
          <<"C18_WF", (out = "ok" /\ Len(ret) = 1) => (WF(post) /\ SelfContained(post, ret[1]))>> >>
     ELSE <<>>
 EblifRtClauses(pre, c, out, post, ret, r) ==
